@@ -174,7 +174,7 @@ fn outputs(c: &Case, store: &Shared<RefStore>) -> Result<Vec<(String, Vec<u8>)>,
     let mut out: Vec<(String, Vec<u8>)> = vec![];
     let log = Log::new();
     let uv = ScriptedUv { verification_cap: Some(true), presence_cap: true, outcome: UvOutcome::Ok { presence: true, verification: c.verified }, yields: 0, log: log.clone() };
-    let cfg = AuthCfg { counter: c.counter, id_len: c.id_len, hmac: c.hmac, hmac_mc: c.hmac_mc };
+    let cfg = AuthCfg { counter: c.counter, id_len: c.id_len, hmac: c.hmac, hmac_mc: c.hmac_mc, order: 0 };
     let uvr = if c.verified { UVR::Required } else { UVR::Discouraged };
     let prf_in = |n: u8| -> Option<PrfIn> { (n != 0).then(|| PrfIn { eval: Some(PrfVals { first: vec![1, 2, 3].into(), second: (n == 2).then(|| vec![4, 5].into()) }), eval_by_credential: None }) };
     let ctap_prf = |n: u8| -> Option<AuthenticatorPrfInputs> { (n != 0).then(|| AuthenticatorPrfInputs { eval: Some(AuthenticatorPrfValues { first: [9; 32], second: (n == 2).then_some([8; 32]) }), eval_by_credential: None }) };
